@@ -1,9 +1,9 @@
 import runner as R
 from props import *
-import C04_more, C04_gen
+import C04_more, C04_gen, C04_create
 import symmetry_part
 
-LEAN_MODULES = ['C04'] + C04_more.LEAN_MODULES_EXTRA + C04_gen.LEAN_MODULES + symmetry_part.LEAN_MODULES
+LEAN_MODULES = ['C04'] + C04_more.LEAN_MODULES_EXTRA + C04_gen.LEAN_MODULES + C04_create.LEAN_MODULES + symmetry_part.LEAN_MODULES
 
 MANIFEST = dict(
     text="One Lean theorem per operator machine: for all parameters, raw scripts and source modes, delivered trace = the documented list function (Spec.*) of the source's values and ending; "
@@ -20,7 +20,8 @@ def check(ctx):
     R.compare(ctx, rows, proj_values, 'C04 chains = composition of the parts (Machine.seq)', nontrivial=lambda c, gd: gd.get('trace', '-') != '-')
     more_rule = C04_more.parts(ctx)
     gen = C04_gen.parts(ctx)
-    return dict(search=combine_search(gen['search'], C04_more.search, symmetry_part.search), assumptions=['the translator go/extract/opgen.go is faithful on the fragment it accepts (docs/opgen.md); its output is checked against the hand-written machines by the kernel'],
-                rule=gen['rule_part'] + '; ' + more_rule + '; ' + 'random chains of 2-5 int->int operators (sync/hot, cuts) + ' + 'every catalogue operator x parameters (boundaries) x four variants x named callbacks x raw scripts (exhaustive to length 2/3 over '
+    cre = C04_create.parts(ctx)
+    return dict(search=combine_search(gen['search'], cre['search'], C04_more.search, symmetry_part.search), assumptions=['the translator go/extract/opgen.go is faithful on the fragment it accepts (docs/opgen.md); its output is checked against the hand-written machines by the kernel'],
+                rule=gen['rule_part'] + '; ' + cre['rule_part'] + '; ' + more_rule + '; ' + 'random chains of 2-5 int->int operators (sync/hot, cuts) + ' + 'every catalogue operator x parameters (boundaries) x four variants x named callbacks x raw scripts (exhaustive to length 2/3 over '
                      '{-1,0,2,3} x three endings x illegal suffixes; seeded longer scripts) x {sync, hot}; compared: delivered values, kinds and order; '
                      'non-trivial = script has a value and something was delivered or dropped')
